@@ -122,7 +122,7 @@ theorem rt_step (env : Env) (hlim : env.limit = none) (fuel : Nat)
                                                         omega)) ?_
       have h2 : ¬ xs.length = null32 := by unfold maxInt32 at hl; unfold null32; omega
       simp only [h2, h1, if_false]
-      refine Reads.congr (Reads.bind (reads_request hlim xs.length) ?_) (List.nil_append _) rfl
+      refine Reads.congr (Reads.bind (reads_requestAt hlim _ xs.length) ?_) (List.nil_append _) rfl
       exact Reads.map (g := fun vs => Val.slice false vs) rbs
   | ptr e =>
     cases v <;> simp [wt] at h
